@@ -158,6 +158,17 @@ def refresh (e : Env) (st : St) (ev : Ev) : St × Outcome :=
       | .panic => (st, .panic)
       | .ok t => if ev.storeOk then (adopt t, .done) else (st, .done)
 
+/-- start-up (`app.Run`): use the topology file if it can be read; otherwise fetch WITHOUT a hash to compare with
+    (`NetworkTopology("")`), store it (a failure of either is fatal: `none`); the gate and the host's peerstore are then
+    built from that topology -/
+def bootstrap (e : Env) (file : Option Topo) (f : Fetched) (storeOk : Bool) : Option St :=
+  match file with
+  | some t => some ⟨some t, canon t.peers, canon t.peers⟩
+  | none =>
+    match provider e "" f with
+    | .ok t => if storeOk then some (adopt t) else none
+    | _ => none
+
 /-- a sequence of refresh calls (a panic kills the process; the restarted process loads the stored topology, which by
     `Props.C13.consistent_run` is the gate's, so the state component is all that matters) -/
 def run (e : Env) (st : St) (evs : List Ev) : St := evs.foldl (fun s ev => (refresh e s ev).1) st
@@ -194,5 +205,40 @@ instance (e : Env) (st : St) (ev : Ev) (st' : St) : Decidable (RefreshOk e st ev
         rintro (h1 | ⟨t', h2, h3⟩)
         · exact h' h1
         · cases h2; exact h'' h3)
+
+/-! ## several handlers, one store / gate / peerstore
+
+  `app.Run` creates ONE `RefreshEventHandler` PER EVM chain; they share the provider, the `TopologyStore`, the
+  `ConnectionGate` and the host, and each chain's listener runs in its own goroutine. An accepted refresh performs three
+  separate writes (file, gate pointer, peerstore) with nothing that makes them one step, so the writes of two handlers
+  can interleave. -/
+
+inductive Write
+  | store (t : Topo)     -- `topologyStore.StoreTopology(t)`
+  | gate (t : Topo)      -- `connectionGate.SetTopology(t)`
+  | peers (t : Topo)     -- `p2p.LoadPeers(host, t.Peers)`
+deriving DecidableEq, Repr
+
+def Write.topo : Write → Topo
+  | .store t | .gate t | .peers t => t
+
+def applyWrite (st : St) : Write → St
+  | .store t => { st with stored := some t }
+  | .gate t => { st with gate := canon t.peers }
+  | .peers t => { st with pstore := canon t.peers }
+
+/-- what one handler call contributes: nothing, or its three writes in program order -/
+def writesOf (e : Env) (ev : Ev) : List Write :=
+  match adoptable e ev with
+  | some t => [.store t, .gate t, .peers t]
+  | none => []
+
+/-- `ws` is an interleaving of the lists `ls` (each list keeps its own order) -/
+inductive Interleaving : List (List Write) → List Write → Prop
+  | done (ls : List (List Write)) (h : ∀ l ∈ ls, l = []) : Interleaving ls []
+  | step (pre : List (List Write)) (w : Write) (l : List Write) (post : List (List Write)) (ws : List Write)
+      (h : Interleaving (pre ++ l :: post) ws) : Interleaving (pre ++ (w :: l) :: post) (w :: ws)
+
+def applyWrites (st : St) (ws : List Write) : St := ws.foldl applyWrite st
 
 end Sygma.C13
